@@ -241,6 +241,11 @@ fn spawn_worker(prop: &str, tier: Tier, seed: u64, start: u64, step: u64, end: u
         .arg(end.to_string())
         .arg(out)
         .arg(if digests { "1" } else { "0" })
+        // keep freed heap memory in the process: the decoder allocates and frees
+        // its level arrays on every call and glibc would otherwise trim / re-fault them
+        .env("MALLOC_TRIM_THRESHOLD_", "1073741824")
+        .env("MALLOC_TOP_PAD_", "67108864")
+        .env("MALLOC_MMAP_THRESHOLD_", "1073741824")
         .stdin(Stdio::null())
         .stdout(Stdio::piped())
         .stderr(Stdio::inherit());
